@@ -109,6 +109,9 @@ def run_crosshair(harness_path, lines, ob, twin):
         out, err, rc = (e.stdout or b'').decode() if isinstance(e.stdout, bytes) else (e.stdout or ''), 'hard timeout', -9
     wall = time.time() - t0
     status, wit = parse_crosshair(out)
+    if status == 'none' and rc == -9:
+        # a single solver query outlived the budget and the process was killed: inconclusive, not a harness error
+        status, wit = 'not_confirmed', 'hard timeout (solver query did not return within 1.5 x budget + 120 s)'
     if status == 'none':
         wit = (out + '\n' + (err or ''))[-1500:]
     stats = {}
